@@ -6,6 +6,7 @@ Translated (constants the theorems depend on):
   * newline_char          the char RangeKeeper::push searches for
   * cr_char, whole_document_on_cr
                           whether get_text_edits starts with the `contains('\\r')` whole-document branch, and its char
+  * validates_diff        whether chunks that do not add up to both texts (is_partition) lead to replace_document
 Checked for shape (ShapeError = broken tie): the loop of push, the body of to_range, order / guards / bodies of the five
 match arms of get_text_edits, the body of the whole-document branch, do_formatting (guard on ctx.error, default
 formatting options, get_text_edits(old_text, &new_text)) and both request handlers calling do_formatting.
@@ -33,9 +34,13 @@ def char_code(lit, what):
 
 WIDTHS = {"str.len()": "width_utf8", "str.encode_utf16().count()": "width_utf16", "str.chars().count()": "width_chars"}
 
-CR_BRANCH = (r"if old_text\.contains\('((?:\\.|[^'\\])+)'\) \{ if old_text == new_text \{ return vec!\[\]; \} "
-             r"let lf_only = old_text\.replace\(\"\\r\\n\", \"\\n\"\)\.replace\('\\r', \"\\n\"\); "
-             r"return vec!\[TextEdit \{ range: RangeKeeper::new\(\)\.to_range\(&lf_only\), new_text: new_text\.to_string\(\), \}\]; \} ")
+CR_BRANCH = r"if old_text\.contains\('((?:\\.|[^'\\])+)'\) \{ return replace_document\(old_text, new_text\); \} "
+VALIDATE = "if !is_partition(&edits, old_text, new_text) { return replace_document(old_text, new_text); } "
+REPLACE_DOCUMENT = ('if old_text == new_text { return vec![]; } let lf_only = old_text.replace("\\r\\n", "\\n").replace(\'\\r\', "\\n"); '
+                    "vec![TextEdit { range: RangeKeeper::new().to_range(&lf_only), new_text: new_text.to_string(), }]")
+IS_PARTITION = ("let mut old = String::new(); let mut new = String::new(); for chunk in chunks { match chunk { "
+                "Chunk::Equal(str) => { old.push_str(str); new.push_str(str); } Chunk::Delete(str) => old.push_str(str), "
+                "Chunk::Insert(str) => new.push_str(str), } } old == old_text && new == new_text")
 
 
 def translate():
@@ -72,7 +77,22 @@ def translate():
         body = body[m.end():]
     else:
         whole = False
-    head = "let mut rk = RangeKeeper::new(); let edits = diff(old_text, new_text); let mut idx = 0; let mut result = vec![]; " \
+    head1 = "let mut rk = RangeKeeper::new(); let edits = diff(old_text, new_text); "
+    if not body.startswith(head1):
+        raise ShapeError("get_text_edits: unrecognised beginning: %s" % body[:200])
+    body = body[len(head1):]
+    validates = body.startswith(VALIDATE)
+    if validates:
+        body = body[len(VALIDATE):]
+    if whole or validates:
+        rd = squash(between(src, r"fn replace_document\(old_text: &str, new_text: &str\) -> Vec<TextEdit> \{", r"\n\}", "replace_document"))
+        if rd != REPLACE_DOCUMENT:
+            raise ShapeError("replace_document has unrecognised shape: %s" % rd)
+    if validates:
+        ip = squash(between(src, r"fn is_partition\(chunks: &\[Chunk\], old_text: &str, new_text: &str\) -> bool \{", r"\n\}", "is_partition"))
+        if ip != IS_PARTITION:
+            raise ShapeError("is_partition has unrecognised shape: %s" % ip)
+    head = "let mut idx = 0; let mut result = vec![]; " \
            "while idx < edits.len() { match (edits[idx], edits.get(idx + 1), edits.get(idx + 2)) {"
     if not body.startswith(head):
         raise ShapeError("get_text_edits: unrecognised beginning: %s" % body[:200])
@@ -113,10 +133,11 @@ def translate():
            "Definition column_width : N -> nat := %s." % width,
            "Definition newline_char : N := %d%%N." % nl,
            "Definition cr_char : N := %d%%N." % cr,
-           "Definition whole_document_on_cr : bool := %s." % ("true" if whole else "false")]
+           "Definition whole_document_on_cr : bool := %s." % ("true" if whole else "false"),
+           "Definition validates_diff : bool := %s." % ("true" if validates else "false")]
     fp = write_if_changed("EditsConsts.v", "\n".join(out) + "\n")
     return {"file": "Gen/EditsConsts.v", "fingerprint": fp, "column_width": width, "newline_char": nl, "cr_char": cr,
-            "whole_document_on_cr": whole}
+            "whole_document_on_cr": whole, "validates_diff": validates}
 
 
 if __name__ == "__main__":
